@@ -224,8 +224,10 @@ func c01Judge(t ev.TB, r *ev.Rec, n uint64, t10 int, th base.Threshold, counts [
 			codeReq := uint64(th.Threshold(uint(n)))
 
 			if codeReq != req {
-				if w2, _, _, _, _ := c01Model(n, codeReq, counts); w2 == string(res) {
-					// the tally itself is right for the required count it was given: the count is wrong (C02's root cause)
+				// the tally is right for the required count it was given (or wrong only by the separate unsigned wrap with
+				// more votes than nodes): the count is what is wrong (C02's root cause)
+				w2, _, _, _, _ := c01Model(n, codeReq, counts)
+				if w2 == string(res) || (w2 == c01Draw && string(res) == c01NotYet && sum > n+top) {
 					sig = "required-count-wrong"
 				}
 			}
